@@ -6,7 +6,7 @@ E5 = ("E5 value-graph matching of anchored functions against reference implement
       "Static translation-validation style check: for every function anchored in this property, results, ordered guarded effects, loop conditions/exits and loop-carried (init, step) values, package-level initialisers and function literals are rebuilt from SSA as terms and must equal those of a reference implementation written from the property statement, over the reals and under every truth assignment of the atomic comparisons. Decides that the anchored formulas, guards, argument roles, protocols and validators are the statement's; does not decide emergent behaviour of value-dependent loops beyond the per-iteration transfer functions.")
 CHECKS = {
  "C02": ("E3 nondeterminism-source exclusion + shared-state write analysis over SSA (plus E5 on the generator constructors and handlers)",
-         "Static exclusion argument: on the SSA form of every function reachable from the handlers and MakeDecision, no nondeterminism source exists (clock, global PRNG, os/runtime, goroutines/channels, unclassified externals), every generator is seeded from a request *Seed field, every map range is order-insensitive (classified P/E/S), comparators are pure, no struct is decoded by a decoder that resolves keys in map order (ND-5: the one mapstructure.Decode site is a recorded known finding), and nothing writes memory that outlives the request. Decides the structural necessary-and-(under the stated assumptions)-sufficient conditions of repeatability; not the byte encoding.",
+         "Static exclusion argument: on the SSA form of every function reachable from the handlers and MakeDecision, no nondeterminism source exists (clock, global PRNG, os/runtime, goroutines/channels, unclassified externals), every generator is seeded from a request *Seed field, every map range is order-insensitive (classified P/E/S), comparators are pure, no struct is decoded by a decoder that resolves keys in map order unless case-ambiguous objects are refused first (ND-5: the one mapstructure.Decode site is dominated by the repository's ambiguity check), and nothing writes memory that outlives the request. Decides the structural necessary-and-(under the stated assumptions)-sufficient conditions of repeatability; not the byte encoding.",
          "2"),
  "C10": ("E3 may-point-to-shared write analysis (SHR-1..4) over SSA + call graph (plus E5 on factories and handlers)",
          "Race freedom by construction: every write reachable from a handler is shown to target request-local memory (interprocedural may-point-to-shared analysis with singleton types taken from the initialisers), factories return fresh objects, decode targets are request-local, globals are init-only, no goroutines/channels/shared PRNG. Holds for every interleaving because it shows the absence of shared writes rather than sampling schedules.",
